@@ -667,7 +667,16 @@ class Interp(ModelMixin):
         elts = h.type.elts if isinstance(h.type, ast.Tuple) else [h.type]
         names = []
         for e in elts:
-            if isinstance(e, ast.Attribute):
+            if isinstance(e, ast.Name) and e.id in st.frame.env:
+                # `except errors:` where errors is a local / parameter holding a class or a tuple of classes
+                v = st.frame.env[e.id]
+                vals = v.items if isinstance(v, TupleV) else (v,)
+                for x in vals:
+                    if isinstance(x, ClsV):
+                        names.append(x.qual.split(':')[-1])
+                    else:
+                        raise AnalysisError(f'except clause {norm(e)} names a value that is not a known exception class')
+            elif isinstance(e, ast.Attribute):
                 names.append(e.attr)
             elif isinstance(e, ast.Name):
                 names.append(e.id)
@@ -1034,6 +1043,9 @@ class Interp(ModelMixin):
                     visit(e.parent)
                 if e.src:
                     visit(e.src)
+                if e.kind == 'count' and e.spec:
+                    for x in e.spec:
+                        visit_val(x)
                 for x in e.items:
                     visit_val(x)
                 for grp in e.owned:
@@ -1646,6 +1658,17 @@ class Interp(ModelMixin):
         if isinstance(e.func, ast.Name) and e.func.id == 'next' and 'next' not in st.frame.env and len(e.args) in (1, 2) \
                 and not e.keywords and isinstance(e.args[0], ast.GeneratorExp) and len(e.args[0].generators) == 1:
             return self._next_gen(e, st)
+        if isinstance(e.func, ast.Name) and e.func.id == 'next' and 'next' not in st.frame.env and len(e.args) in (1, 2) and not e.keywords \
+                and isinstance(e.args[0], ast.Call) and isinstance(e.args[0].func, ast.Name) and e.args[0].func.id == 'filter' \
+                and 'filter' not in st.frame.env and len(e.args[0].args) == 2 and not e.args[0].keywords:
+            # next(filter(f, xs)[, default]) == next((v for v in xs if f(v))[, default]) : lazy, first match wins
+            fexpr, xs = e.args[0].args
+            var = ast.Name(id='%nf', ctx=ast.Load())
+            cond = var if (isinstance(fexpr, ast.Constant) and fexpr.value is None) else ast.Call(func=fexpr, args=[var], keywords=[])
+            gen = ast.GeneratorExp(elt=var, generators=[ast.comprehension(target=ast.Name(id='%nf', ctx=ast.Store()), iter=xs, ifs=[cond], is_async=0)])
+            ast.copy_location(gen, e.args[0])
+            ast.fix_missing_locations(gen)
+            return self._next_gen(e, st, gen=gen)
         if isinstance(e.func, ast.Name) and e.func.id == 'next' and 'next' not in st.frame.env and len(e.args) in (1, 2) \
                 and not e.keywords and isinstance(e.args[0], ast.Name) and isinstance(st.frame.env.get(e.args[0].id), GenV):
             return self._next_gen(e, st, gen=self.genexps[st.frame.env[e.args[0].id].key])
@@ -1666,6 +1689,24 @@ class Interp(ModelMixin):
         return res
 
     def eval_args(self, e, st):
+        """Evaluate the arguments of a call.  Values already computed are kept alive (hidden frame names) while later
+        arguments are evaluated: those may run loops, and loops collect garbage."""
+        outs = self._eval_args(e, st)
+        tag = f'%a{id(e)}'
+        for _, s in outs:
+            for k in [k for k in s.frame.env if k.startswith(tag)]:
+                del s.frame.env[k]
+        return outs
+
+    def _pin_args(self, e, av, s):
+        args, kw = av
+        tag = f'%a{id(e)}'
+        for j, v in enumerate(args):
+            s.frame.env[f'{tag}p{j}'] = v
+        for k, v in kw.items():
+            s.frame.env[f'{tag}k{k}'] = v
+
+    def _eval_args(self, e, st):
         outs = [(([], {}), st)]
         for a in e.args:
             nxt = []
@@ -1694,6 +1735,9 @@ class Interp(ModelMixin):
                         else:
                             nxt.append(((args + [v], kw), s2))
             outs = nxt
+            for av_, s_ in outs:
+                if not isinstance(av_, Raise):
+                    self._pin_args(e, av_, s_)
         for k in e.keywords:
             nxt = []
             for av, s in outs:
@@ -1723,6 +1767,9 @@ class Interp(ModelMixin):
                         kw2[k.arg] = v
                         nxt.append(((args, kw2), s2))
             outs = nxt
+            for av_, s_ in outs:
+                if not isinstance(av_, Raise):
+                    self._pin_args(e, av_, s_)
         return outs
 
     def super_value(self, st, node):
